@@ -241,7 +241,7 @@ def main():
         mod.setup(cctx)
         known = set(core.known_findings(cid))       # mechanism keys listed in known_findings.txt: violations attributed to them do not fire the oracle
         from decimal import Decimal as _D
-        extra = {'C06': (0,), 'C03': (10000, False), 'C01': (None, False),
+        extra = {'C06': (0,), 'C03': (10000, False), 'C01': (None, False), 'C13': (0, 'fuzz'),
                  'C04': ({'a': 10 ** 30 + 7, 'b': 2.5, 'c': [10 ** 30 + 7, _D('1234567890123456789012345678')], 's': 'ab', 'l': [1, 2], 'n': _D('1E+1000'), 't': True, 'm': 3},)
                  }.get(cid, ())      # the remaining fields of that check's text-carrying case kind
 
